@@ -497,6 +497,8 @@ pub fn repo_head() -> String {
 pub fn drive(cfg: &Cfg, meta: &PropMeta, scenarios: Vec<Scenario<'_>>, post: Option<&dyn Fn() -> PostOut>) {
     install_quiet_panic_hook();
     assert_eq!(cfg.prop, meta.id);
+    // (libtest prints `test <name> ... ` without a newline when output is not captured)
+    println!();
     if let Some(path) = &cfg.replay {
         replay(meta, &scenarios, path);
         return;
